@@ -86,7 +86,7 @@ def _base_ty(b, op):
     return b.local_ty(l)
 
 
-def first_writer_wins(ctx, f, writes, what, new_value_rx):
+def first_writer_wins(ctx, f, writes, what, new_value_rx, rule="C03.G.first-writer-wins"):
     """Every write to self.span either happens where the span is still None, or stores the value it
     already had — `if self.span.is_none() { self.span = Some(s) }` and
     `self.span = self.span.or(Some(s))` are the same statement."""
@@ -110,7 +110,7 @@ def first_writer_wins(ctx, f, writes, what, new_value_rx):
                         ok = False
                 elif v not in IDENT:
                     ok = False
-        ctx.ob("C03.G.first-writer-wins", f.key, what, ok and seen_new, "a write that can run while a span is present must keep it: %s" % detail)
+        ctx.ob(rule, f.key, what, ok and seen_new, "a write that can run while a span is present must keep it: %s" % detail)
 
 
 def runtime_bodies(ctx, core):
@@ -139,18 +139,16 @@ def closure_calls_with_span(ctx, body, clo_key, node_rx=None):
     return False, None
 
 
-def run(ctx):
-    core = ctx.core("on")
-    bodies = runtime_bodies(ctx, core)
-    allb = [b for b in ctx.all_bodies(core) if not scan.is_test_body(b) and not b.derived]
-
-    # ------------------------------------------------------------ first writer wins
+def with_span_semantics(ctx, P):
+    """`Error::with_span(node)` gives the error the node's span exactly when it has none (first writer
+    wins), and "has a span" means the error's own span field.  Shared with C15 (an error returned by
+    a hook comes back carrying the item's span unless it already carried one)."""
     f = ctx.fn(E + "with_span")
     if f:
         asg = ctx.find_field_assigns(f, "span", 1)
         mw = span_method_writes(ctx, f)
-        ctx.ob("C03.G.with-span-shape", f.key, "one write of self.span", len(asg) + len(mw) == 1, "%d assignments, %d Option-method writes" % (len(asg), len(mw)))
-        first_writer_wins(ctx, f, asg, "self.span = Some(node.span())", r"Some\{[^{}]*Spanned(>)?::span\(a2\)\}$")
+        ctx.ob(P + ".with-span-shape", f.key, "one write of self.span", len(asg) + len(mw) == 1, "%d assignments, %d Option-method writes" % (len(asg), len(mw)))
+        first_writer_wins(ctx, f, asg, "self.span = Some(node.span())", r"Some\{[^{}]*Spanned(>)?::span\(a2\)\}$", rule=P + ".first-writer-wins")
         for blk, t in mw:
             # `self.span.get_or_insert_with(|| node.span())` writes only when the span is None
             name = mir.callee_of(t) or ""
@@ -163,11 +161,19 @@ def run(ctx):
                         okv = all(re.search(r"Spanned(>)?::span\(node\)$|Spanned(>)?::span\(\(?a1", e) or "span(" in e for e in ctx.ret_values(c))
             else:
                 okv = "span(a2)" in val
-            ctx.ob("C03.G.first-writer-wins", f.key, "self.span.%s(..)" % name.rsplit("::", 1)[-1], benign and okv, "Option method %s with value %s: only get_or_insert(_with) keeps an existing span" % (name, val[:100]))
+            ctx.ob(P + ".first-writer-wins", f.key, "self.span.%s(..)" % name.rsplit("::", 1)[-1], benign and okv, "Option method %s with value %s: only get_or_insert(_with) keeps an existing span" % (name, val[:100]))
     f = ctx.fn(E + "has_span")
     if f:
         rs = ctx.ret_values(f)
-        ctx.ob("C03.G.has-span-def", f.key, "return", rs == ["is_some(self.span)"], "returns %s" % rs)
+        ctx.ob(P + ".has-span-def", f.key, "return", rs == ["is_some(self.span)"], "returns %s" % rs)
+
+
+def run(ctx):
+    core = ctx.core("on")
+    bodies = runtime_bodies(ctx, core)
+    allb = [b for b in ctx.all_bodies(core) if not scan.is_test_body(b) and not b.derived]
+
+    with_span_semantics(ctx, "C03.G")
     f = ctx.fn("darling_core::ast::data::Fields::<T>::with_span")
     if f:
         first_writer_wins(ctx, f, ctx.find_field_assigns(f, "span", 1), "Fields.span = Some(span)", r"Some\{a2\}$")
@@ -333,6 +339,16 @@ def run(ctx):
         reads = span_reads(ctx, f)
         ctx.ob("C03.dataflow.bundle-span-reaches-leaves", f.key, "read of self.span in the Multiple branch", bool(reads),
                "F10: into_vec never reads the bundle's span, so an unspanned leaf of a spanned bundle stays unspanned after flatten / conversion to diagnostics")
+        # … and hands it down whenever the bundle has one: the with_span on the child stands under
+        # "the bundle has a span" and under nothing else (not, say, under "there is a location to prepend")
+        ws = ctx.find_calls_deep(f, r"^darling_core::error::Error::with_span$", helpers=1)
+        ctx.ob("C03.G.bundle-span-handed-down-unconditionally", f.key, "one with_span on the child", len(ws) == 1, "%d with_span calls" % len(ws))
+        for _, t_, owner in ws:
+            b_ = [x for x, y in owner.calls() if y is t_][0]
+            pcs = ctx.pc_strs(owner, b_) or [set()]
+            extra = sorted({a_ for d in pcs for a_ in d if not re.search(r"^is_some\(.*span.*\)=True$|^is_some\(a\d\)=True$|^discr\(.*\)=Multiple$|Iterator(>)?::next\(", a_)})
+            ctx.ob("C03.G.bundle-span-handed-down-unconditionally", f.key, "condition of the hand-down", not extra,
+                   "the child receives the bundle's span only under the additional condition(s) %s: a spanned bundle without them leaves its unspanned leaves unspanned" % extra)
     f = ctx.fn(E + "flatten")
     if f:
         iv = ctx.find_calls(f, r"^darling_core::error::Error::into_vec$")
